@@ -371,3 +371,28 @@ func (w *SimWriter) Write(p []byte) (int, error) {
 type SimStringWriter struct{ *SimWriter }
 
 func (w SimStringWriter) WriteString(s string) (int, error) { return w.SimWriter.Write([]byte(s)) }
+
+// SimWriterToReader is a SimByteReader that also implements io.WriterTo (like *os.File since Go 1.22):
+// code that "drains" such a source must not lose the error WriteTo returns.
+type SimWriterToReader struct{ *SimByteReader }
+
+func (r SimWriterToReader) WriteTo(w io.Writer) (int64, error) {
+	var total int64
+	buf := make([]byte, 512)
+	for {
+		n, err := r.SimByteReader.Read(buf)
+		if n > 0 {
+			m, werr := w.Write(buf[:n])
+			total += int64(m)
+			if werr != nil {
+				return total, werr
+			}
+		}
+		if err == io.EOF {
+			return total, nil
+		}
+		if err != nil {
+			return total, err
+		}
+	}
+}
